@@ -50,7 +50,7 @@ prop(
         "control fields of inline-QoS / FragmentNumberSet / String images taken from the enumerated families (listed per obligation)",
     ],
     timeout={"quick": 600, "thorough": 1500},
-    mem_gb=10,
+    mem_gb=12,
 )
 
 prop(
@@ -100,7 +100,7 @@ prop(
         "FragmentNumberSet base <= u32::MAX - 33 (no member overflows u32, cf. KF-C07-2)",
     ],
     timeout={"quick": 900, "thorough": 1800},
-    mem_gb=8,
+    mem_gb=12,
 )
 
 prop(
@@ -147,5 +147,5 @@ prop(
         "NOT trigger KF-C06-1..4 in the respective __rest obligations",
     ],
     timeout={"quick": 900, "thorough": 1800},
-    mem_gb=10,
+    mem_gb=12,
 )
